@@ -204,6 +204,7 @@ struct Kernel {
   bool Exists(const std::string& p) const { return fs.Find(Abs(p)) != nullptr; }
   bool ReadFile(const std::string& p, std::string* out) const;
   void WriteFile(const std::string& p, const std::string& data, bool external_edit = false);
+  void ReplaceFile(const std::string& p, const std::string& data);   // atomic replace (new inode)
   void Touch(const std::string& p, bool external_edit = true);
   bool Remove(const std::string& p);
   void MkdirP(const std::string& p);
